@@ -341,8 +341,10 @@ def unsetIn (d : StepDef) (s : St) : St :=
   | some kvs => { s with ctx := kvs.foldl (fun c kv => Ctx.erase c kv.1) s.ctx }
   | none => s
 
-/-- `Step.run_step`, given the bare module body and the callee runner: the nesting
-    `while > foreach > run/skip/swallow > retry > invoke`. -/
+/-- `Step.run_step` from the point where the (optional) `description` has been dealt with, given the
+    bare module body and the callee runner: `in` arguments set, the nesting
+    `while > foreach > run/skip/swallow > retry > invoke`, `in` arguments unset on normal completion.
+    For a step without `description` this is all of `run_step`; see `runStepDescribed`. -/
 def runStepWith (d : StepDef) (body : Body) (callee : CofCfg → Body) (fuel : Nat) : Body := fun s =>
   let s0 := setIn d s
   let invoke : Frame → Body := fun fr => invokeStep fr body callee
@@ -358,5 +360,27 @@ def runStepWith (d : StepDef) (body : Body) (callee : CofCfg → Body) (fuel : N
   match r with
   | (s1, .ok) => (unsetIn d s1, .ok)
   | other => other
+
+/-- the up-front part of `Step.run_step` for a step with a (truthy) `description`: the text of the
+    notification is formatted right after the `in` arguments are set - an error of that formatting
+    propagates (outside every decorator: not recorded in `runErrors`, not swallowed, not retried, `in`
+    arguments left in the context). The preview of `run`/`skip` that only words the notification
+    ("(skipping): …") ignores its own errors since c7066aa and formatting has no effect on the
+    context, so it leaves no trace here. `none` = nothing raised. -/
+def describe (d : StepDef) (s : St) : Option Exc :=
+  match d.description with
+  | some v =>
+    if v.truthy then
+      match fmtV s v with
+      | .error x => some x
+      | .ok _ => none
+    else none
+  | none => none
+
+/-- `Step.run_step`: `in` arguments, the `description` notification, then the decorator stack. -/
+def runStepDescribed (d : StepDef) (body : Body) (callee : CofCfg → Body) (fuel : Nat) : Body := fun s =>
+  match describe d (setIn d s) with
+  | some x => raiseExc (setIn d s) x
+  | none => runStepWith d body callee fuel s
 
 end Pypyr.Flow
